@@ -216,6 +216,7 @@ def run_async(cfg: dict) -> dict:
     if sock is not None and out["leaf_closed_after_wrap"]:
         out["leaf_closed_after_wrap"] = bool(out.get("sock_closed"))
     _finish(out, relay)
+    tlsrig.gc_tick()
     return out
 
 
